@@ -434,8 +434,11 @@ def run_history(chk, binp, steps, salt, strace=False):
                         if j % 8 == 0:
                             # first the key keeper's state actor is the slow one (rules and key reads are answered late), then the status actor
                             real.st.ctl("slowactor key_keeper 6000" if j == 0 else "slowactor agent_status 4000")
-                            pipe.concurrent_aborts(lambda: real.st.connect(audit=(0, real.caller, 1, "168.63.129.16", 80)),
-                                                   lambda q: e2e.build_request("GET", "/machine?comp=goalstate&abort=%d-%d" % (j, q), [(b"Host", b"168.63.129.16")]))
+                            # (not in the traced history: under strace the agent needs some ten seconds to work 48 dropped connections
+                            # off, and the steps that follow would be judged while it is still busy)
+                            if not strace:
+                                pipe.concurrent_aborts(lambda: real.st.connect(audit=(0, real.caller, 1, "168.63.129.16", 80)),
+                                                       lambda q: e2e.build_request("GET", "/machine?comp=goalstate&abort=%d-%d" % (j, q), [(b"Host", b"168.63.129.16")]))
                         c = real.st.connect(audit=(0, real.caller, 1, "168.63.129.16", 80))
                         c.send(e2e.build_request("GET", "/machine?comp=goalstate&abort=%d" % j, [(b"Host", b"168.63.129.16")]))
                         time.sleep(0.004 * (j % 8))
@@ -443,7 +446,16 @@ def run_history(chk, binp, steps, salt, strace=False):
                     time.sleep(0.25)
                 finally:
                     real.st.ctl("khook off")
-                time.sleep(0.1)
+                # the agent works the aborted connections off (slowly when it is traced): wait until its logs have been quiet for
+                # 0.4 s (20 s at most) before the next step is judged
+                t_end, last, quiet_since = time.time() + 20.0, None, time.time()
+                while time.time() < t_end:
+                    sz = tuple(os.path.getsize(f) if os.path.exists(f) else 0 for f in (os.path.join(real.logs, "ProxyAgent.log"), os.path.join(real.logs, "ProxyAgent.Connection.log")))
+                    if sz != last:
+                        last, quiet_since = sz, time.time()
+                    elif time.time() - quiet_since > 0.4:
+                        break
+                    time.sleep(0.05)
                 real.st.hosts.take()
                 observe(real, 0.05)           # not compared: how far each aborted request got is timing
             elif kind == "provq":
